@@ -76,7 +76,9 @@ class CapturedPath:
         for subpath_item in reversed(subpath):
           path, prev_edge = self._push_item_on_se_path(path, prev_edge,
               subpath_item.inverted())
-      prev_edge = prev_edge_subpath
+      # (was the last element pushed given as an edge? for a group traversed
+      # backwards that is the first item of its definition)
+      prev_edge = item.line._last_item_is_edge(item.orient == "-")
     elif isinstance(item.line, gfapy.line.unknown.Unknown):
       raise gfapy.RuntimeError(
         "Captured path cannot be computed; a reference has not been resolved\n"+
@@ -89,6 +91,18 @@ class CapturedPath:
         "Error: items of type {} are not supported\t".format(item.line.__class__.__name__)+
         "Unsupported item: {}".format(item))
     return path, prev_edge
+
+  def _last_item_is_edge(self, backwards = False, depth = 0):
+    if not self.items or depth > 100:
+      return False
+    item = self.items[0] if backwards else self.items[-1]
+    if isinstance(item.line, gfapy.line.edge.GFA2):
+      return True
+    elif isinstance(item.line, gfapy.line.group.Ordered):
+      return item.line._last_item_is_edge(
+          backwards != (item.orient == "-"), depth + 1)
+    else:
+      return False
 
   def _push_first_edge_on_se_path(self, path, items):
     oriented_edge = items[0]
@@ -105,10 +119,12 @@ class CapturedPath:
         # in the next iteration, so does not need to be handled here
       elif isinstance(nextitem.line, gfapy.line.edge.GFA2):
         oss_of_next = [nextitem.line.sid1, nextitem.line.sid2]
-        if oriented_edge.orient == "-":
+        if nextitem.orient == "-":
           for i in range(len(oss_of_next)):
             oss_of_next[i] = oss_of_next[i].inverted()
-        if oss[0] in oss_of_next:
+        # the walk continues from the end of the first edge; the first edge
+        # is turned around only if the next edge cannot continue from there
+        if oss[1] not in oss_of_next and oss[0] in oss_of_next:
           oss.reverse()
         # if oss_of_next have no element in common with oss an error will be
         # raised in the next iteration, so does not need to be handled here
